@@ -201,12 +201,14 @@ def _tree_transfer(job, ctx):
     muts = [("ul", lambda c: c.ul.append("m")), ("ud", lambda c: c.ud.__setitem__("new", 1)), ("sub.ul", lambda c: c.sub.ul.append("m")),
             ("dl[k]", lambda c: c.dl["k"].append("m")), ("tl", lambda c: c.tl.append(9)), ("td", lambda c: c.td.__setitem__("n", 2)),
             ("ll[0]", lambda c: c.ll[0].append("m"))]
-    for route in ("load_tree", "ctor", "load_tree-virtual"):
+    for route in ("load_tree", "ctor", "load_tree-virtual", "asdict-load_tree", "asdict-ctor"):
         for side in ("receiver", "sender"):
             for mname, mutate in muts:
                 ident = [route, side, mname]
                 if only is not None and only != ident:
                     continue
+                if route.startswith("asdict") and mname == "dl[k]":
+                    continue        # asdict() keeps dict values as they are: an untyped list inside a dict value travels by reference
                 s = cc.Schema()
                 s.ul = cc.ListField(); s.ud = cc.DictField(); s.tl = cc.ListField(cc.IntField()); s.td = cc.DictField(cc.StringField(), cc.IntField())
                 s.dl = cc.DictField(cc.StringField(), cc.ListField()); s.ll = cc.ListField(cc.ListField())
@@ -215,8 +217,8 @@ def _tree_transfer(job, ctx):
                 a.ul = [1, 2]; a.ud = {"a": 1}; a.tl = [1]; a.td = {"k": 1}; a.dl = {"k": [1]}; a.ll = [[1], [2]]; a.sub.ul = [3]
                 case = {"kind": "transfer", "jobparams_full": {k: v for k, v in job.items() if k not in ("single", "only")}, "only": ident, "job": job["name"]}
                 try:
-                    tree = a.to_tree(virtual=True) if route.endswith("virtual") else a.to_tree()
-                    if route == "ctor":
+                    tree = a.to_tree(virtual=True) if route.endswith("virtual") else (cc.asdict(a) if route.startswith("asdict") else a.to_tree())
+                    if route.endswith("ctor"):
                         b = s(**tree)
                     else:
                         b = s()
